@@ -46,14 +46,26 @@ def op_close(sim, ep, target, size, fin):
 
 PROFILES = {
     "close": {"faults": FAULTS, "op_weights": OPS, "custom_ops": {"close": op_close}, "idle_timeouts": IDLE,
-              "poke_after_termination": True, "fair_budget": 150.0, "t_adv_max": 5.0},
+              "poke_after_termination": True, "fair_budget": 150.0, "t_adv_max": 5.0, "accept_any_first": True},
     "crash": {"faults": FAULTS + ("peer-crash",), "op_weights": dict(OPS, close=0.5),
               "custom_ops": {"close": op_close}, "idle_timeouts": IDLE, "poke_after_termination": True,
-              "fair_budget": 150.0, "t_adv_max": 5.0},
+              "fair_budget": 150.0, "t_adv_max": 5.0, "accept_any_first": True},
     "fatal": {"faults": ("drop", "dup", "delay", "timer-late"), "op_weights": dict(OPS, close=0.3),
               "custom_ops": {"close": op_close}, "idle_timeouts": IDLE, "poke_after_termination": True,
-              "fair_budget": 150.0, "t_adv_max": 5.0, "fatal_frames": True},
+              "fair_budget": 150.0, "t_adv_max": 5.0, "fatal_frames": True, "accept_any_first": True},
 }
+
+
+def own_pto(conn):
+    """Probe timeout per RFC 9002 6.2.1 from the endpoint's RTT estimate (no back-off), computed
+    here rather than by the code under test so that the 3 x PTO bound is not self-referential."""
+    loss = conn._loss
+    if not loss._rtt_initialized:
+        return 2 * loss._rtt_initial
+    return loss._rtt_smoothed + max(4 * loss._rtt_variance, 0.001) + loss.max_ack_delay
+
+
+JUNK_KINDS = ("short-initial", "random", "short-header", "flipped-initial", "empty-ish")
 
 
 class C09Oracle(Oracle):
@@ -63,6 +75,7 @@ class C09Oracle(Oracle):
         self.n_timer_checked = 0
         self.n_closed = 0
         self.kinds = set()
+        self.junk_done = False
 
     def on_start(self, sim):
         self.sim = sim
@@ -123,11 +136,52 @@ class C09Oracle(Oracle):
         s = self.st[ep.name]
         state = conn._state.name
         if s["closing"] is None and state in ("CLOSING", "DRAINING") and not ep.terminated:
-            pto = conn._loss.get_probe_timeout()
+            pto = own_pto(conn)
             s["closing"] = {"at": ep.now(), "pto": pto, "state": state, "g": self.sim.k.now}
             self.kinds.add(state)
 
+    def junk_first(self, dgram):
+        """Before the client's first datagram arrives, hand the fresh server connection something it
+        must drop: from then on it must name a timer (and eventually idle out)."""
+        sim = self.sim
+        ch = sim.ch.stream("junk")
+        if not ch.chance(0.5):
+            return
+        kind = JUNK_KINDS[ch.choose(len(JUNK_KINDS))]
+        data = dgram.data
+        if kind == "short-initial":
+            junk = data[:600 + ch.choose(500)]
+        elif kind == "random":
+            junk = bytes((17 * i + ch.choose(7)) & 0xFF for i in range(1 + ch.choose(1300)))
+        elif kind == "short-header":
+            junk = bytes([0x40 | ch.choose(0x40)]) + data[6:6 + 8] + bytes(30 + ch.choose(40))
+        elif kind == "flipped-initial":
+            b = bytearray(data)
+            b[len(b) // 2] ^= 0x55
+            junk = bytes(b)
+        else:
+            junk = data[:1 + ch.choose(6)]
+        self.kinds.add("junk-first:" + kind)
+        from sim.transport import Datagram
+
+        d = Datagram()
+        d.id = sim.net.next_id
+        sim.net.next_id += 1
+        d.sender = "junk"
+        d.data = junk
+        d.src = dgram.src
+        d.dst = dgram.dst
+        d.sent_at = sim.k.now
+        d.fate = "junk"
+        d.copies = 1
+        d.phase = "adv"
+        sim.k.trace("junk-first", kind, len(junk))
+        sim.k.at(sim.k.now + 1e-5, sim.net._arrive_junk, d, tag="net")
+
     def on_datagram_sent(self, ep, dgram):
+        if ep.is_client and not self.junk_done and self.sim.profile.get("accept_any_first"):
+            self.junk_done = True
+            self.junk_first(dgram)
         s = self.st[ep.name]
         if ep.terminated:
             raise Violation("c09.after-termination", "datagram-after-termination",
